@@ -117,6 +117,10 @@ PROJECTS = {
         [('a.', 'import a\na.', (2, 2)), ('b.', 'import b\nb.', (2, 2)),
          ('definition of a.aa', 'import a\na.aa', (2, 4), 'location'), ('definition of a.bb', 'import a\na.bb', (2, 4), 'location'),
          ('definition of b.aa', 'import b\nb.aa', (2, 4), 'location'), ('definition of b.bb', 'import b\nb.bb', (2, 4), 'location')]),
+    'star-importer-outside-a-star-import-cycle': (
+        {'a.py': 'from b import *\nxa = 1\n', 'b.py': 'from a import *\nxb = 1\n', 'd.py': 'from a import *\nxd = 1\n', 'e.py': 'from d import *\nxe = 1\n'},
+        [('d.', 'import d\nd.', (2, 2)), ('d. after the star of b', 'from b import *\nimport d\nd.', (3, 2)), ('d. after the star of a', 'from a import *\nimport d\nd.', (3, 2)),
+         ('e.', 'import e\ne.', (2, 2)), ('e. after the star of b', 'from b import *\nimport e\ne.', (3, 2)), ('names after the stars of b and d', 'from b import *\nfrom d import *\nx', (3, 1))]),
     'from-import-cycle': ({'p.py': 'from q import qv\npv = 1\ndef pf(): return qv\n', 'q.py': 'from p import pv\nqv = 2\nclass Q:\n    attr = pv\n'},
                           [('p.', 'import p\np.', (2, 2)), ('q.', 'import q\nq.', (2, 2)), ('q.Q.', 'import q\nq.Q.', (2, 4)), ('p.pf().', 'import p\np.pf().', (2, 7))]),
 }
@@ -281,12 +285,16 @@ CHAIN = {
     'm7.py': ['from m6 import *\nown7 = 7\n'],
     # a package module star-importing a sibling that does not exist yet (a RELATIVE name: it is resolved against the importing file)
     'pk/late_user.py': ['from .late import *\nfrom . import inner\nown_l = 1\n'],
+    # a plain directory (no __init__.py yet): the relative star import of plain/user.py leads nowhere until the directory becomes a package
+    'plain/user.py': ['from .sib import *\nown_p = 1\n'],
+    'plain/sib.py': ['sib_name = 1\n'],
 }
 CHAIN_REQUESTS = [
     ('m0.', 'import m0\nm0.', (2, 3)), ('m1.', 'import m1\nm1.', (2, 3)), ('m2.', 'import m2\nm2.', (2, 3)), ('m3.re3.', 'import m3\nm3.re3.', (2, 7)),
     ('m1.re3.', 'import m1\nm1.re3.', (2, 7)), ('pk.', 'import pk\npk.', (2, 3)), ('pk.inner.', 'import pk\npk.inner.', (2, 9)),
     ('star-names', 'from m1 import *\nown', (2, 3)), ('lint', 'from m1 import *\nprint(base, own1, re3)\n', None),
     ('pk.late_user.', 'import pk.late_user\npk.late_user.', (2, 13)), ('star-of-late_user', 'from pk.late_user import *\nprint(late_name, own_l)\n', None),
+    ('plain.user.', 'import plain.user\nplain.user.', (2, 11)), ('star-of-plain-user', 'from plain.user import *\nprint(sib_name, own_p)\n', None),
     ('m4.', 'import m4\nm4.', (2, 3)), ('m6.', 'import m6\nm6.', (2, 3)), ('m7.', 'import m7\nm7.', (2, 3)), ('star-of-m7', 'from m7 import *\nprint(six, own7)\n', None),
     # requests that fail (the editor is in the middle of a line): the exception leaves the change-checking context as it does in the server
     ('unparsable-request', 'import m1\ndef f(:\n', (2, 5)), ('unparsable-lint', 'from m1 import *\nprint(base\n', None),
@@ -326,8 +334,8 @@ finally:
 
 
 @harness(['C09'], 'supp.project.Project / supp.module.SourceModule [request - edit - request histories against a fresh project]',
-         bounded='a project of 10 modules in 1 package (two star-importing a module that does not exist yet - by an absolute and by a relative name -, one a module that has nothing public at first) with import, from-import, star-import and re-export edges (chain of length 4): every history '
-                 'request; edit; request  over 17 requests (2 of which fail inside the change-checking context) and 13 edits (rewrite of each module to each of its variants with a new mtime, touch), '
+         bounded='a project of 12 modules in 1 package and 1 directory that becomes a package (one star-importing a sibling there by a relative name; two star-importing a module that does not exist yet - by an absolute and by a relative name -, one a module that has nothing public at first) with import, from-import, star-import and re-export edges (chain of length 4): every history '
+                 'request; edit; request  over 19 requests (2 of which fail inside the change-checking context) and 14 edits (rewrite of each module to each of its variants with a new mtime, touch), '
                  'every history  failing request; request; edit; the same request, the histories  request; edit M; look M up by name; request, and 300 histories  request; edit; request; edit; request  drawn with a fixed seed')
 def edit_histories(run):
     """BOUNDED stand-in for the claim of C09 itself: after any history of edits (each with a new modification time) interleaved with requests,
@@ -349,6 +357,7 @@ def edit_histories(run):
         edits.append(('touch', 'm2.py'))
         edits.append(('rewrite', 'm5.py', 'five = 5\n'))
         edits.append(('rewrite', 'pk/late.py', 'late_name = 5\n'))
+        edits.append(('rewrite', 'plain/__init__.py', ''))
         initial = {name: variants[0] for name, variants in CHAIN.items()}
         hists = [[('request', q1), e, ('request', q2)] for q1 in CHAIN_REQUESTS for e in edits for q2 in CHAIN_REQUESTS]
         # a failed request; a request that loads the modules; an edit; the same request again
